@@ -26,14 +26,15 @@ import (
 )
 
 type acks struct {
-	start   int
-	appends map[int]string // event id -> offset
-	nApp    int
-	saves   map[string]string // sub -> last acked offset
-	lines   int
-	closed  bool
-	done    bool
-	lastOp  int
+	start                int
+	appends              map[int]string // event id -> offset
+	nApp                 int
+	saves                map[string]string // sub -> last acked offset
+	lines                int
+	closed               bool
+	done                 bool
+	lastOp               int
+	intentSub, intentOff string // SaveOffset announced but not yet acknowledged
 }
 
 func readAcks(path string) *acks {
@@ -69,6 +70,15 @@ func readAcks(path string) *acks {
 				a.saves[fs[2]] = off
 				a.lastOp, _ = strconv.Atoi(fs[1])
 				a.lines++
+				a.intentSub, a.intentOff = "", ""
+			}
+		case "I":
+			// a SaveOffset about to be called: in flight until its acknowledgement line follows
+			if len(fs) >= 3 {
+				a.intentSub, a.intentOff = fs[2], ""
+				if len(fs) == 4 {
+					a.intentOff = fs[3]
+				}
 			}
 		case "CLOSED":
 			a.closed = true
@@ -240,14 +250,11 @@ func TestC14(t *testing.T) {
 			for s, o := range a.saves {
 				saves[s] = o
 			}
-			// what may have been in flight: one more append, or a save of the last offset to any sub
+			// what may have been in flight: one more append, or the save whose intent line is the last
+			// line of the acknowledgement file
 			inSub, inOff := "", ""
 			if killed {
-				last := ""
-				if totalAcked > 0 {
-					last = ackOffs[totalAcked-1]
-				}
-				inSub, inOff = fmt.Sprintf("sub-%d", (a.lastOp+1)%3), last
+				inSub, inOff = a.intentSub, a.intentOff
 			}
 			sig, desc := verify(db, totalAcked, ackOffs, saves, killed, inSub, inOff)
 			if sig == "" {
@@ -359,7 +366,8 @@ func TestC14Strace(t *testing.T) {
 				os.RemoveAll(dir)
 				continue
 			}
-			sig, desc := verify(db, a.nApp, ackOffs, a.saves, killed, fmt.Sprintf("sub-%d", (a.lastOp+1)%3), last)
+			_ = last
+			sig, desc := verify(db, a.nApp, ackOffs, a.saves, killed, a.intentSub, a.intentOff)
 			if sig == "" {
 				if rows, err := schemaRows(db); err != nil || rows != 1 {
 					sig, desc = "schema-version-rows", fmt.Sprintf("schema_version holds %d rows after reopening (err %v)", rows, err)
